@@ -55,6 +55,8 @@ type Hooks struct {
 	gates  []*Gate
 	Traces []string
 	Trace  bool
+	// Extra, when set, is called for every point before gates are considered.
+	Extra func(name string, keys []string)
 	// DirectLoads counts replicator.Load calls made by the harness itself (not via Sync).
 	DirectLoads int
 }
@@ -76,6 +78,9 @@ func init() {
 }
 
 func (h *Hooks) handle(name string, keys []string) {
+	if f := h.Extra; f != nil {
+		f(name, keys)
+	}
 	h.mu.Lock()
 	ck := name
 	if len(keys) > 0 {
